@@ -1,0 +1,15 @@
+//go:build !verif
+
+package storage
+
+// Verification hooks (see verif_on.go). With the "verif" build tag off they
+// are empty and inlined away.
+
+func verifAutoFlush(b bool) bool                             { return b }
+func verifStoreOpened(f *fileStore)                          {}
+func verifStoreClosed(f *fileStore)                          {}
+func verifIO(f *fileStore, kind string, off int64, b []byte) {}
+func verifWalIO(w *wal, kind string, b []byte)               {}
+func verifIsFull(n *btreeNode) (full bool, ok bool)          { return false, false }
+func verifEv(f *fileStore, kind string)                      {}
+func verifDirty(n *btreeNode)                                {}
